@@ -587,7 +587,7 @@ class SimpleProp:
         """model lines to compare with (default: run the same ops on the model)"""
         return core.run_sharded(core.MODEL, ops)
 
-    def judge_line(self, op, g):
+    def judge_line(self, op, g, m):
         return []
 
     def keep(self, op):
@@ -887,3 +887,197 @@ class ExportProp(SimpleProp):
 
 
 _reg(ExportProp())
+
+
+# ------------------------------------------------------------------------------------------ histories, concurrency
+
+def gen_history(rng, nshared=0, shared_desc=None, maxops=40):
+    """a random history: objects of random version/level, decodes of valid and invalid strings
+    (also into used objects), query bursts, views, reports, exports; returns (ops, slotinfo)"""
+    from . import vec
+    ops = []
+    slots = list(shared_desc or [])          # (ver, levelIndex, shared?)
+    n = 3 + rng.below(maxops)
+    for _ in range(n):
+        c = rng.below(100)
+        priv = [i for i, s in enumerate(slots) if not s[2]]
+        if c < 12 or not slots or (not priv and c < 40):
+            ver, L = rng.choice([2, 3]), rng.below(3)
+            ops.append("N%d%s" % (ver, "BTE"[L]))
+            slots.append((ver, L, False))
+        elif c < 40 and priv:
+            i = rng.choice(priv)
+            ver, L, _ = slots[i]
+            k = rng.below(10)
+            if k < 6:
+                s = vec.rand_v3(rng, L) if ver == 3 else vec.rand_v2(rng, L)
+            elif k < 8:
+                s = (vec.rand_v3(rng, 2) if ver == 3 else vec.rand_v2(rng, 2))       # maybe too high a level
+            elif k < 9:
+                s = (vec.rand_v3(rng, L) if ver == 3 else vec.rand_v2(rng, L))
+                p = rng.below(max(1, len(s)))
+                s = s[:p] + rng.choice(["", "/", ":", "x", "X:X/"]) + s[p + rng.below(2):]
+            else:
+                s = rng.choice(["", "/", "CVSS:3.1", "AV:N", "CVSS:3.1/AV:N/AV:N"])
+            ops.append("D%d,%s" % (i, core.hx(s)))
+        elif c < 75:
+            i = rng.below(len(slots))
+            for _ in range(1 + rng.below(4)):
+                ops.append("Q%d" % i)
+        elif c < 82:
+            i = rng.below(len(slots))
+            ver, L, sh = slots[i]
+            if L > 0:
+                l = rng.below(L)
+                ops.append("V%d,%s" % (i, "BTE"[l]))
+                slots.append((ver, l, sh))
+        elif c < 92:
+            i = rng.below(len(slots))
+            if slots[i][0] == 3:
+                ops.append("R%d,%s" % (i, rng.choice(["en", "ja", "fr"])))
+        else:
+            i = rng.below(len(slots))
+            if slots[i][0] == 3:
+                ops.append("X%d" % i)
+    for i in range(len(slots)):
+        ops.append("Q%d" % i)
+    return ops, slots
+
+
+class HistoryProp(SimpleProp):
+    prop = "C15"
+    needs_extract = True
+    lean_modules = ["CvssVerif.Props.C15"]
+    theorems = ["CvssVerif.Props.C15." + t for t in ("queries_are_pure", "repeated_queries", "history_free", "twin")]
+    rule = ("seeded random histories inside one process over pools of 1-8 objects of both versions and all levels: decodes of valid, "
+            "invalid and level-mismatched strings (also into used objects), bursts of 1-4 repeated full query sets, views through the "
+            "accessors (aliases of the object), report construction in three languages, template export; every operation's result compared "
+            "with the Lean model; each history compared with its twin (same decodes, no queries); distinct by history")
+    assumptions = ["no package-level state is written after init: checked behaviourally by mixed histories in one process and by the race "
+                   "detector runs of C16, not by static analysis"]
+
+    def ops(self, tier, rng):
+        n = 2500 if tier == "quick" else 250000
+        self._twins = {}
+        ops = []
+        for _ in range(n):
+            h, _ = gen_history(rng)
+            ops.append("H " + ";".join(h))
+            twin = [o for o in h if o[0] in "NDV"] + [o for o in h[-200:] if False]
+            # twin: same constructors, decodes and views, none of the queries, then the same final dumps
+            nslots = sum(1 for o in h if o[0] == "N" or o[0] == "V")
+            twin += ["Q%d" % i for i in range(nslots)]
+            ops.append("H " + ";".join(twin))
+        return ops
+
+    def judge_all(self, ops, go):
+        msgs = []
+        for k in range(0, len(ops) - 1, 2):
+            h = ops[k][2:].split(";")
+            g = go[k].split(";")
+            t = ops[k + 1][2:].split(";")
+            tg = go[k + 1].split(";")
+            if len(g) != len(h) or len(tg) != len(t):
+                msgs.append(("history returned %d results for %d operations" % (len(g), len(h)), ops[k]))
+                continue
+            nslots = sum(1 for o in h if o[0] in "NV")
+            if any(x == "PANIC" for x in g):
+                msgs.append(("an operation of the history panicked", ops[k]))
+            # final dumps equal the twin's
+            if g[len(g) - nslots:] != tg[len(tg) - nslots:]:
+                for i in range(nslots):
+                    if g[len(g) - nslots + i] != tg[len(tg) - nslots + i]:
+                        msgs.append(("object %d ends differently from its twin that saw the same decodes but no queries" % i, ops[k]))
+                        break
+            # repeated identical queries return identical results
+            for i in range(1, len(h)):
+                if h[i][0] == "Q" and h[i] == h[i - 1] and g[i] != g[i - 1]:
+                    msgs.append(("repeating %s returned a different result" % h[i], ops[k]))
+                    break
+        return msgs
+
+
+_reg(HistoryProp())
+
+
+class ConcProp:
+    prop = "C16"
+    needs_extract = True
+    lean_modules = ["CvssVerif.Props.C16"]
+    theorems = ["CvssVerif.Props.C16." + t for t in ("cvss_disciplined", "interleaving_eq_sequential", "shared_unchanged")]
+    trusted_base = TB_COMMON + ["the Go race detector (harness built with -race) for the absence of data races on the executed schedules"]
+    assumptions = ["PARTIAL: the Go memory model and scheduler are not modelled; the theorem covers all interleavings of the abstract "
+                   "operations, the race detector and the concurrent-vs-sequential comparison cover the schedules that actually ran",
+                   "discipline of the property: a goroutine decodes only into its own objects; shared objects are only queried"]
+
+    def run(self, tier, rng, seed):
+        from . import vec
+        out = Outcome()
+        out.rule = ("rounds of 16 goroutines started together (harness built with -race): each runs a seeded random history of decodes into "
+                    "its own objects, query bursts, views, report construction and export on its own and on shared already-decoded objects "
+                    "of every level and version; per-goroutine results compared with the sequential run and with the Lean model; distinct by history")
+        try:
+            race = core.build_harness(race=True)
+        except core.BuildError as e:
+            out.violations.append(("build", "cannot build the harness with -race: %s" % str(e)[-300:], "", ""))
+            return out
+        rounds = 6 if tier == "quick" else 200
+        G = 16
+        total = 0
+        for r in range(rounds):
+            shared = []
+            desc = []
+            for ver in (3, 2):
+                for L in range(3):
+                    i = len(desc)
+                    shared.append("N%d%s" % (ver, "BTE"[L]))
+                    shared.append("D%d,%s" % (i, core.hx(vec.rand_v3(rng, L) if ver == 3 else vec.rand_v2(rng, L))))
+                    desc.append((ver, L, True))
+            hs = []
+            for g in range(G):
+                h, _ = gen_history(rng, shared_desc=desc, maxops=60)
+                hs.append(";".join(h))
+            path = os.path.join(core.BUILD, "conc-%d.txt" % r)
+            with open(path, "w") as f:
+                f.write(";".join(shared) + "\n" + "\n".join(hs) + "\n")
+            import subprocess
+            p = subprocess.run([race, "conc", path], stdout=subprocess.PIPE, stderr=subprocess.PIPE, timeout=1200,
+                               env=dict(os.environ, GORACE="halt_on_error=0"))
+            os.remove(path)
+            err = p.stderr.decode("utf-8", "replace")
+            lines = p.stdout.decode("utf-8", "replace").split("\n")
+            if "DATA RACE" in err or p.returncode != 0:
+                out.violations.append(("conc round %d" % r, "race detector / runtime: exit %d: %s" % (p.returncode, err[:1500].replace("\n", " | ")),
+                                       ";".join(shared), "\n".join(hs)[:3000]))
+                continue
+            # model: set-up followed by the goroutine's history, results after the set-up
+            mops = ["H " + ";".join(shared) + ";" + h for h in hs]
+            mo = core.run_sharded(core.MODEL, mops)
+            nset = len(shared)
+            for g in range(G):
+                c = lines[2 * g][2:] if 2 * g < len(lines) else ""
+                s = lines[2 * g + 1][2:] if 2 * g + 1 < len(lines) else ""
+                total += len(hs[g].split(";"))
+                if c != s:
+                    out.violations.append(("H " + hs[g], "goroutine %d got different results concurrently and sequentially" % g, c[:1500], s[:1500]))
+                m = ";".join(mo[g].split(";")[nset:])
+                if s != m:
+                    out.mismatches += 1
+                    if len(out.mismatch_examples) < 5:
+                        out.mismatch_examples.append({"stream": "conc", "op": mops[g][:3000], "impl": s[:1500], "model": m[:1500]})
+                if "PANIC" in c:
+                    out.violations.append(("H " + hs[g], "an operation panicked in goroutine %d" % g, c[:1500], ""))
+            if r == 0:
+                out.samples.append({"shared_setup": ";".join(shared)[:400], "goroutine_0": hs[0][:600], "result": lines[0][:300]})
+        out.evaluations = total
+        out.distinct = total
+        out.hist = {"rounds": rounds, "goroutines": G, "operations": total}
+        out.stream_info.append({"stream": "16 goroutines x %d rounds under -race" % rounds, "ops": total, "exhaustive": False,
+                                "mismatches": out.mismatches, "violations": len(out.violations)})
+        return out
+
+    def replay(self, rp):
+        return self.run("quick", core.Rng(1), 1)
+
+
+_reg(ConcProp())
